@@ -182,6 +182,26 @@ class Effects(object):
         idx = self.index
         callee = idx.callee(m, call, f)
         fn = call.func
+        # dynamic call by name: getattr(<module or namespace>, <non-constant>)(...), globals()[x](...)
+        if isinstance(fn, ast.Call) and idx.callee(m, fn, f) == "builtins.getattr" and len(fn.args) >= 2:
+            tgt, name = fn.args[0], fn.args[1]
+            if not isinstance(name, ast.Constant):
+                r = idx.resolve(m, tgt, f) if isinstance(tgt, (ast.Name, ast.Attribute)) else None
+                modlike = r is not None and (
+                    r.split(".")[0] in ("builtins", "os", "sys", "subprocess", "importlib", "shutil", "operator")
+                    or r in idx.modules
+                )
+                if modlike or (isinstance(tgt, ast.Call) and idx.callee(m, tgt, f) in ("importlib.import_module", "builtins.__import__")):
+                    self._add("EXEC", "dynamic-call", "getattr({}, <name>)()".format(r or "import_module(...)"), call, f, m)
+                    return
+        if isinstance(fn, ast.Subscript) and isinstance(fn.value, ast.Call) and idx.callee(m, fn.value, f) in (
+            "builtins.globals",
+            "builtins.locals",
+            "builtins.vars",
+        ):
+            if not isinstance(fn.slice, ast.Constant):
+                self._add("EXEC", "dynamic-call", "globals()[<name>]()", call, f, m)
+                return
         if callee is not None:
             if callee in EXEC_EXACT:
                 self._add("EXEC", EXEC_EXACT[callee], callee, call, f, m)
